@@ -175,6 +175,60 @@ def run(ctx):
     if ctx.exhaustive is None:
         ctx.exhaustive = True
 
+    # ---- the same server text under many codes, one after the other in ONE process --------------------------
+    # (whatever is remembered between error responses must be remembered under the whole (code, text) pair: the
+    # sequence walks through codes whose built-in hashes coincide, -1/-2 and n / n +- (2**61 - 1))
+    if ctx.shard[0] == 0:
+        M = 2**61 - 1
+        seq = [-2, -1, -2, -32601, -32601 - M, -32601 + M, 5, 5 + M, 5 - M, -32603, -32603 - M, 0, M, -M, 1, 1 + M,
+               -32602, -32602 + M, -1, -2] + sorted(PERMANENT) + [c - M for c in sorted(PERMANENT)]
+        hist_cases = [{"code": c, "rep": reps[k % len(reps)], "msg": "fixed", "data": "absent", "history_position": k}
+                      for text_k in range(2) for k, c in enumerate(seq)]
+
+        async def hist_batch(cs):
+            outs = []
+            for k, case in enumerate(cs):
+                c = case["code"]
+                text = "Request refused" if k < len(seq) else "quota exceeded \u20ac"
+                try:
+                    msg = _mk(case["rep"], "e1", {"code": c, "message": text})
+                except Exception as e:  # noqa
+                    outs.append((case, text, "unbuildable", e))
+                    continue
+                rs, rr = anyio.create_memory_object_stream(4)
+                ws, wr = anyio.create_memory_object_stream(4)
+                rs.send_nowait(msg)
+                try:
+                    outs.append((case, text, "return", await send_message(rr, ws, "tools/list", None, timeout=1.0, message_id="e1")))
+                except BaseException as e:  # noqa
+                    if isinstance(e, (KeyboardInterrupt, SystemExit)):
+                        raise
+                    outs.append((case, text, "raise", e))
+                for s_ in (rs, rr, ws, wr):
+                    s_.close()
+            return outs
+        try:
+            outs, _ = run_virtual(hist_batch, hist_cases)
+        except HangDetected as e:
+            ctx.violation("hang", str(e), {"history": True})
+            outs = []
+        for case, text, kind, val in outs:
+            c = case["code"]
+            if kind == "unbuildable":
+                continue
+            ctx.count("error_responses_delivered")
+            ctx.count("same_text_history_errors")
+            want_perm = c in PERMANENT
+            if kind == "return":
+                ctx.violation("error_completed_normally", f"error response code {c} returned {val!r}", case)
+            elif type(val) is not (E.NonRetryableError if want_perm else E.RetryableError):
+                ctx.violation("wrong_exception_class", f"code {c} (same text as the errors before it): raised {type(val).__name__} "
+                              f"({val!r}), expected {'NonRetryableError' if want_perm else 'RetryableError'}", case)
+            elif not (type(val.code) is int and val.code == c) or text not in str(val) or (str(c) not in str(val)):
+                ctx.violation("code_not_carried", f"code {c} (same text as the errors before it): exception carries code "
+                              f"{val.code!r}, text {str(val)!r}", case)
+            ctx.record(case, shape=type(val).__name__, nontrivial=True, cls="same_text_history")
+
     # ---- typed helpers x codes --------------------------------------------
     helpers = discover_helpers()
     hcodes = sorted(PERMANENT) + [-32603, -32001, -32002, -32004, -32099, -32100, -1, 0, 1, 404, 2**63 - 1,
